@@ -270,7 +270,7 @@ def run(tier):
     # (string shapes end their line: the scanner looks for the line end from every literal, which is quadratic TIME on
     # a one-line file - slow, not a failure)
     pieces = ["1.a ", "1. ", "1abc ", "@ ", "\"\\q\"\n", "\"a\\tb\"\n", "\"open\n", "'x\n", "1.é ", "# c\r", "if to ", "small x ", "é ", "1.\"\n", "\t\f "]
-    runs = [{"id": i, "src": pc * (300000 if not q else 120000), "modes": ["lex"]} for i, pc in enumerate(pieces)]
+    runs = [{"id": i, "src": pc * 300000, "modes": ["lex"]} for i, pc in enumerate(pieces)]
     lres = runner.run_requests(runs, mode="front", nworkers=8, timeout=300)
     lex_runs_ok = 0
     for i, pc in enumerate(pieces):
@@ -279,6 +279,22 @@ def run(tier):
             v.finding("lexrun:" + class_string(pc), "a long run of %r: %s" % (pc, r.get("panic") or r.get("crash") or r), {"text": pc * 50, "minimal": pc, "detail": str(r)[:300]})
         else:
             lex_runs_ok += 1
+    # long runs of tokens the PARSER has to recover from, inside a block and at top level (parser only: no rendering)
+    junk = [") ", "] ", ", ", "get ", "1 ", "( ", "x x ", "make ", "end ", "if not so ", ". ", "start end ", "# c\n", "return ", "comot "]
+    pruns = []
+    for i, pc in enumerate(junk):
+        pruns.append({"id": 2 * i, "src": "start\n" + pc * 12000 + "\nend\n", "modes": ["parse"]})
+        pruns.append({"id": 2 * i + 1, "src": pc * 12000, "modes": ["parse"]})
+    pres = runner.run_requests(pruns, mode="front", nworkers=8, timeout=300)
+    parse_runs_ok = 0
+    for rq in pruns:
+        r = pres.get(rq["id"], {}).get("parse", {})
+        pc = junk[rq["id"] // 2]
+        if r.get("st") in ("PANIC", "CRASH", "HANG") or r.get("errors") is None:
+            v.finding("parserun:%s:%s" % ("block" if rq["id"] % 2 == 0 else "top", class_string(pc)), "a run of 12 000 %r %s: %s" % (pc, "inside a block" if rq["id"] % 2 == 0 else "at top level", r.get("panic") or r.get("crash") or r),
+                      {"text": rq["src"][:80], "minimal": pc, "detail": str(r)[:300]})
+        else:
+            parse_runs_ok += 1
     # many diagnostics on ONE long line through the shipped binary (reporting must not need memory in proportion to
     # diagnostics x line length)
     naija = common.build_naija()
@@ -299,7 +315,7 @@ def run(tier):
     render_info = renderer_conformance(rnd.sample(texts[:n_sweep], min(n_sweep, 1500 if q else 8000)) + rnd.sample(texts[n_sweep:n_sweep + n_mut + n_rand], 300 if q else 2000))
     v.coverage = {"states": states, "transitions": transitions, "traces_validated_against_impl": counts["ok"],
                   "renderer_conformance_(information_only)": render_info,
-                  "texts_enumerated_by_tlc": n_sweep, "token_mutations_of_generated_programs": n_mut, "random_mutations_of_corpus": n_rand, "wide_programs": n_wide, "member_call_arity_family": n_family, "long_runs_of_lexer_recovery_shapes": len(pieces), "long_runs_ok": lex_runs_ok,
+                  "texts_enumerated_by_tlc": n_sweep, "token_mutations_of_generated_programs": n_mut, "random_mutations_of_corpus": n_rand, "wide_programs": n_wide, "member_call_arity_family": n_family, "long_runs_of_lexer_recovery_shapes": len(pieces), "long_runs_ok": lex_runs_ok, "long_runs_of_parser_recovery_shapes": len(pruns), "parser_runs_ok": parse_runs_ok,
                   "results": dict(counts), "clean_texts_with_same_tokens_as_reference": token_agree, "clean_texts_with_other_tokens_(information_only)": token_differ,
                   "gating_texts_with_errors_checked": gated, "evaluations": len(texts), "distinct_nontrivial": len(set(texts)),
                   "rule": "every text over the alphabet up to the bound (TLC), plus token mutations and byte mutations; all are non-trivial (every text must survive); distinct texts counted",
